@@ -196,6 +196,7 @@ def check_interleaved(runner, arrays, diff_idx, name, rows, module_cls=None):
         raise
     except Exception:
         pass           # the perturbed inputs may leave the op's domain (log of a negative number ...): irrelevant here
+    disturb()
     g = values.dense_g(out.shape)
     try:
         out.backward(sg.Tensor(np.asarray(g, dtype=out.dtype if out.dtype.kind == "f" else np.float64)))
@@ -213,3 +214,22 @@ import contextlib
 @contextlib.contextmanager
 def quiet_inner():
     yield
+
+
+def disturb():
+    """a fixed battery of OTHER operations (forward and backward) that share helpers with many ops (window placement, unbroadcast,
+    im2col, reductions): run between the forward and the backward of the graph under test"""
+    sg = harness.load(); F = sg.nn.functional
+    T = lambda shape, salt=0: sg.Tensor(values.generic(shape, salt=salt + 40), requires_grad=True)
+    try:
+        for out in (F.conv2d(T((1, 2, 3, 3)), T((2, 2, 2, 2), 1), None, stride=1, padding=1),
+                    F.conv1d(T((2, 1, 4)), T((1, 1, 2), 2), T((1,), 3), stride=2, padding=1, dilation=1),
+                    F.max_pool2d(T((1, 1, 4, 4)), 2, padding=1), F.avg_pool1d(T((1, 2, 5)), 2, stride=1, padding=1),
+                    F.unfold(T((1, 1, 3, 3)), (2, 2), padding=1), F.fold(T((1, 4, 4)), (3, 3), (2, 2)),
+                    F.batch_norm(T((3, 2)), None, None, None, None, True), F.linear(T((2, 3)), T((2, 3), 5), T((2,), 6)),
+                    F.softmax(T((2, 3)), 1), (T((2, 3)) * T((3,), 7)).sum(dim=(0, -1)), T((3, 2)).transpose(0, 1).reshape((6,)).max()):
+            out.backward(sg.Tensor(np.ones(out.shape)))
+    except harness.HarnessError:
+        raise
+    except Exception:
+        pass
